@@ -192,8 +192,38 @@ fn gen_c01(_p: &Pools, rng: &mut Rng, pb: &mut PB) {
     if rng.chance(1, 2) { pb.call_into("inverse_transform_vector", "m", &[a, vc], s1); }
 }
 
+/// C05 / C06 at small angles (pipeline C)
+fn gen_small_rot(p: &Pools, rng: &mut Rng, pb: &mut PB) {
+    if rng.chance(1, 5) {
+        let ty = *rng.pick(&["Basis2", "Matrix2"]);
+        let a = [pb.load(t(ty)), pb.load(t(*rng.pick(&["direct", "invert", "compose"]))), pb.load(Val::V2(uv2(p, rng))), pb.load(Val::I(rng.range(0, 3)))];
+        pb.call("small_rot_proj", "m", &a);
+        return;
+    }
+    let ty = *rng.pick(ROT3);
+    let routes: &[&str] = match ty {
+        "Quaternion" => &["direct", "from_angle", "rotate_vector", "invert", "compose", "via_mat3", "via_basis3", "via_mat4"],
+        "Matrix3" => &["direct", "from_angle", "invert", "compose", "via_quat", "via_basis3", "via_mat4"],
+        "Basis3" => &["direct", "from_angle", "rotate_vector", "invert", "compose", "via_quat", "via_mat3"],
+        _ => &["direct", "from_angle", "invert", "compose", "via_quat"],
+    };
+    let route = *rng.pick(routes);
+    let (n, v) = if route == "from_angle" {
+        let z = q(0, 1); let o = q(1, 1);
+        let e = [Vector3::new(o, z, z), Vector3::new(z, o, z), Vector3::new(z, z, o)];
+        let i = rng.below(3);
+        // v: a rational unit vector perpendicular to the coordinate axis
+        let u = uv2(p, rng);
+        let v = match i { 0 => Vector3::new(z, u.x, u.y), 1 => Vector3::new(u.x, z, u.y), _ => Vector3::new(u.x, u.y, z) };
+        (e[i], v)
+    } else { let (e1, _e2, e3) = frame(p, rng); (e3, e1) };
+    let a = [pb.load(t(ty)), pb.load(t(route)), pb.load(Val::V3(n)), pb.load(Val::V3(v)), pb.load(Val::I(rng.range(0, 3)))];
+    pb.call("small_rot_proj", "m", &a);
+}
+
 // ------------------------------------------------------------------ C05
 fn gen_c05(p: &Pools, rng: &mut Rng, pb: &mut PB) {
+    if rng.chance(1, 5) { gen_small_rot(p, rng, pb); return; }
     let a = uq(p, rng);
     let ra = pb.load(Val::Q(a));
     match rng.below(5) {
@@ -251,6 +281,7 @@ fn gen_c05(p: &Pools, rng: &mut Rng, pb: &mut PB) {
 
 // ------------------------------------------------------------------ C06
 fn gen_c06(p: &Pools, rng: &mut Rng, pb: &mut PB) {
+    if rng.chance(1, 5) { gen_small_rot(p, rng, pb); return; }
     match rng.below(5) {
         0 => {
             let ax = pb.load(Val::V3(uv3(p, rng)));
@@ -435,6 +466,17 @@ fn dec_val(p: &Pools, rng: &mut Rng, kind: &str, scale: Q) -> V {
     }
 }
 fn gen_c08(p: &Pools, rng: &mut Rng, pb: &mut PB) {
+    if rng.chance(1, 8) {
+        // small scales and tiny determinants in native arithmetic (pipeline C)
+        let kind = *rng.pick(&["Matrix4", "Matrix4_invert", "Matrix3", "Matrix3_invert", "DecQ", "Dec3", "DecQ_vector"]);
+        let mut scales = vec![q(3, 1_000_000), q(-5, 2_000_000), q(1, 100_000), q(-1, 10_000), q(1, 250)];
+        if kind.starts_with("Matrix") { scales.push(q(1, 10_000_000)); scales.push(q(-1, 100_000_000)); }
+        let sc = *rng.pick(&scales);
+        let nz3 = |rng: &mut Rng| Vector3::new(small_nz(rng), small_nz(rng), small_nz(rng));
+        let a = [pb.load(t(kind)), pb.load(vs(sc)), pb.load(Val::Q(uq(p, rng))), pb.load(Val::V3(nz3(rng))), pb.load(Val::V3(nz3(rng)))];
+        pb.call("tiny_inv_proj", "m", &a);
+        return;
+    }
     let kind = *rng.pick(&["DecQ", "Dec3", "Dec2", "Matrix3_2", "Matrix3_3", "Matrix4", "DecQ", "Dec3"]);
     let tt = pb.load(t(kind));
     if kind.starts_with("Dec") && rng.chance(1, 12) {
@@ -515,9 +557,18 @@ fn gen_c08(p: &Pools, rng: &mut Rng, pb: &mut PB) {
 fn gen_c09(p: &Pools, rng: &mut Rng, pb: &mut PB) {
     if rng.chance(1, 3) {
         // general position: arbitrary rational eye / direction / up (normalisations are not exact); judged through projections
-        let (dir, up) = (rv3(rng), rv3(rng));
+        let (mut dir, mut up) = (rv3(rng), rv3(rng));
         let c = dir.cross(up);
         if c.x.n == 0 && c.y.n == 0 && c.z.n == 0 { return; }
+        // the constructors are homogeneous of degree 0 in `up` and in `dir`: a very short (or long) up or direction is as valid as a unit one
+        if rng.chance(1, 3) {
+            let iv = |rng: &mut Rng| Vector3::new(Q::int(rng.range(-6, 6) as i128), Q::int(rng.range(-6, 6) as i128), Q::int(rng.range(-6, 6) as i128));
+            let u0 = iv(rng);
+            let c0 = dir.cross(u0);
+            if c0.x.n == 0 && c0.y.n == 0 && c0.z.n == 0 { return; }
+            up = u0 * *rng.pick(&[q(1, 1_000_000_000), q(1, 10_000), q(1, 100_000_000), q(1000, 1)]);
+            if rng.chance(1, 2) { dir = dir * *rng.pick(&[q(1, 1000), q(1000, 1), q(1, 100_000)]); }
+        }
         let eye = Point3::from_vec(rv3(rng));
         let (d, u, e, c2) = (pb.load(Val::V3(dir)), pb.load(Val::V3(up)), pb.load(Val::P3(eye)), pb.load(Val::P3(eye + dir)));
         let (inner, form, rest): (&str, &str, Vec<usize>) = match rng.below(5) {
@@ -578,6 +629,14 @@ fn gen_c09(p: &Pools, rng: &mut Rng, pb: &mut PB) {
 
 // ------------------------------------------------------------------ C10
 fn gen_c10(_p: &Pools, rng: &mut Rng, pb: &mut PB) {
+    if rng.chance(1, 8) {
+        // near and far a hair apart (pipeline C)
+        let ctor = *rng.pick(&["perspective", "perspective_fov", "frustum", "perspective_struct", "ortho", "planar"]);
+        let n = *rng.pick(&[q(1, 2), q(1, 1), q(3, 1), q(10, 1), q(250, 1), q(1, 16)]);
+        let a = [pb.load(t(ctor)), pb.load(vs(n)), pb.load(Val::I(rng.range(0, 3)))];
+        pb.call("slab_proj", "m", &a);
+        return;
+    }
     let lo = |rng: &mut Rng| q(rng.range(-7, 2) as i128, *rng.pick(&[1, 2, 1, 3]));
     let l = lo(rng); let r = l + small_pos(rng);
     let b = lo(rng); let tp = b + small_pos(rng);
@@ -639,6 +698,17 @@ fn gen_c10(_p: &Pools, rng: &mut Rng, pb: &mut PB) {
 
 // ------------------------------------------------------------------ C11
 fn gen_c11(p: &Pools, rng: &mut Rng, pb: &mut PB) {
+    if rng.chance(1, 6) {
+        // close to unit length (pipeline C)
+        let x = match rng.below(4) {
+            0 => Val::V2(uv2(p, rng)), 1 => Val::V3(uv3(p, rng)),
+            2 => { let u = uq(p, rng); Val::V4(Vector4::new(u.s, u.v.x, u.v.y, u.v.z)) }
+            _ => Val::Q(uq(p, rng)),
+        };
+        let a = [pb.load(x), pb.load(Val::I(rng.range(0, 5))), pb.load(Val::B(rng.chance(1, 2)))];
+        pb.call("norm_proj", "m", &a);
+        return;
+    }
     match rng.below(6) {
         0 => {
             // exact: vectors of rational length
@@ -729,6 +799,14 @@ fn gen_c11(p: &Pools, rng: &mut Rng, pb: &mut PB) {
 
 // ------------------------------------------------------------------ C13
 fn gen_c13(_p: &Pools, rng: &mut Rng, pb: &mut PB) {
+    if rng.chance(1, 8) {
+        // many turns away from zero (pipeline C): x = +-(m + 1/3) radians
+        let m = *rng.pick(&[7i128, 100, 5000, 100_000, 1_000_000, 3_000_000]);
+        let x = q(if rng.chance(1, 2) { 3 * m + 1 } else { -(3 * m + 1) }, 3);
+        let a = [pb.load(vs(x))];
+        pb.call("trig_big_proj", "m", &a);
+        return;
+    }
     let unit = *rng.pick(&["Rad", "Deg"]);
     if rng.chance(1, 4) {
         // pipeline C: rounding clauses on native values (tiny negatives, huge magnitudes, ordinary values)
